@@ -57,6 +57,10 @@ int main(int argc, char** argv) {
   add_module_ops(L.ops, {4, 16});
   const size_t nmod_end = L.ops.size();
   add_table_ops(L.ops);
+  const size_t nmain = L.ops.size();
+  add_module_ops(L.ops, {4, 16}, 1);  // the same entry points on different data (second thread of same-call pairs)
+  std::map<int, int> twin;
+  for (size_t k = nsimple; k < nmod_end; ++k) for (size_t j = nmain; j < L.ops.size(); ++j) if (L.ops[j].name == L.ops[k].name + "#data1") twin[(int)k] = (int)j;
   lsm_arena_page_align();
   Ctx ctx(args);
   const bool th = args.thorough();
@@ -90,7 +94,7 @@ int main(int argc, char** argv) {
   }
   const int depth = th ? 3 : 2;
   std::vector<int> all;
-  for (size_t k = 0; k < L.ops.size(); ++k) all.push_back((int)k);
+  for (size_t k = 0; k < nmain; ++k) all.push_back((int)k);
   L.set.clear(); L.set.insert(L.initial_hash);
   ctx.parallel(all.size(), [&](uint64_t i) { std::vector<int> path; L.explore(path, L.initial_hash, all, depth, "cross-family", (int)i); }, "Engine B");
   states += L.set.counters[0] - 1; transitions += L.set.counters[1];
@@ -106,9 +110,9 @@ int main(int argc, char** argv) {
       bool h = n.find("vmp") != std::string::npos || n.find("dft") != std::string::npos || n.find("svp") != std::string::npos || n.find("small") != std::string::npos || n.find("normalize") != std::string::npos;
       (h ? heavy : light).push_back((int)k);
     }
-    for (size_t a = 0; a < heavy.size(); ++a) for (size_t b = a; b < heavy.size(); ++b) scen.push_back({"S1 module pair", {heavy[a], heavy[b]}});
+    for (size_t a = 0; a < heavy.size(); ++a) for (size_t b = a; b < heavy.size(); ++b) scen.push_back({"S1 module pair", {heavy[a], (a == b && twin.count(heavy[b])) ? twin[heavy[b]] : heavy[b]}});
     for (size_t a = 0; a < heavy.size(); ++a) for (size_t b = 0; b < light.size(); ++b) if (th || b % 6 == a % 6) scen.push_back({"S1 module pair", {heavy[a], light[b]}});
-    for (size_t a = 0; a < light.size(); ++a) for (size_t b = a; b < light.size(); ++b) if (th || a == b) scen.push_back({"S1 module pair", {light[a], light[b]}});
+    for (size_t a = 0; a < light.size(); ++a) for (size_t b = a; b < light.size(); ++b) if (th || a == b) scen.push_back({"S1 module pair", {light[a], (a == b && twin.count(light[b])) ? twin[light[b]] : light[b]}});
     if (th) for (size_t a = 0; a + 2 < heavy.size(); a += 2) scen.push_back({"S1 module triple", {heavy[a], heavy[a + 1], heavy[a + 2]}});
     // S2: warmed *_simple calls, equal and different dimensions / parameters
     for (size_t a = 0; a < nsimple; ++a) for (size_t b = a; b < nsimple; ++b) if (L.ops[a].family == L.ops[b].family) scen.push_back({"S2 warmed simple pair", {(int)a, (int)b}});
